@@ -241,6 +241,23 @@ fn run_filter_readers(rep: &mut Report, rng: &mut Rng, thorough: bool) {
             Outcome::Ok(out) if out == expect => {}
             other => rep.fail("short-read-changes-bytes:filter-reader", &other.describe(), json!({"filter": arch, "data_len": len})),
         }
+        // a source that never delivers more than 1..4 bytes per call (a pipe, a tty), over code-like data long enough for
+        // the reader's 4096-byte buffer to be refilled and compacted many times in every phase of an instruction
+        if *arch != "delta" {
+            let big = if *arch == "x86" { crate::c11::gen_x86_dense(&mut r, if thorough { 400_000 } else { 150_000 }) } else { crate::c11::gen_arch_code(&mut r, arch, if thorough { 120_000 } else { 40_000 }) };
+            let clean = guard(|| read_all_sched(&mut open(FaultReader { data: big.clone(), pos: 0, script: vec![], calls: 0, fail_at: None }), &[65536], big.len() * 2));
+            if let Outcome::Ok(expect_big) = clean {
+                for grant in [1usize, 2, 3, 4] {
+                    let script: Vec<Act> = (0..big.len() / grant + 16).map(|j| Act::Max(if grant == 4 { 1 + j % 4 } else { grant })).collect();
+                    let o = guard(|| read_all_sched(&mut open(FaultReader { data: big.clone(), pos: 0, script, calls: 0, fail_at: None }), &[4096], big.len() * 2));
+                    rep.evaluations += 1;
+                    match o {
+                        Outcome::Ok(out) if out == expect_big => rep.count("filter-reader.tiny-reads.same"),
+                        other => rep.fail("short-read-changes-bytes:filter-reader", &format!("source delivering at most {grant} byte(s) per call: {}", match &other { Outcome::Ok(out) => format!("Ok with {} of {} bytes", out.len(), expect_big.len()), o => o.describe() }), json!({"filter": arch, "data_len": big.len(), "grant": grant, "data_fnv": fnv(&big)})),
+                    }
+                }
+            }
+        }
         rep.case(format!("filter-reader:{arch}"), true, || json!({"filter": arch, "data_len": len}));
     }
 }
